@@ -936,7 +936,7 @@ class EditsMachine(Machine):
         "(op kind, outcome) pairs occurring in the history (counts ignored); non-trivial = at least one successful mutation after the memo was populated, followed by a query"
     )
     real_components = ["mxlpy.Model (all mutators, memo, id bookkeeping, queries)", "mxlpy.surrogates.qss.Surrogate"]
-    stub_components = []
+    stub_components = ["none (in a quarter of the runs the harness hands the model fresh copies of its library functions, so that no function object outlives its use in the model)"]
     assumptions = [
         "a model rebuilt through add_* from get_raw_* copies is 'a freshly built model with the same content'",
         "exception class equality is only demanded between the edited model and its fresh rebuild (same code path)",
